@@ -108,6 +108,7 @@ type Obligation struct {
 	ReplayFn string
 	Inputs   []inputVar
 	Site     bool // a reachability cover of a clause's application site: first solver stage only
+	Group    string // site covers of one clause: the clause is vacuous only if every site of it is unreachable
 }
 
 type inputVar struct {
